@@ -17,7 +17,7 @@ for sd in args:
     try:
         for p in [pid] + also:
             t0 = time.time()
-            r = subprocess.run(["python3", "/verif/tools/check.py", p, "--tier", tier], cwd="/verif", stdout=subprocess.PIPE, stderr=subprocess.STDOUT)
+            r = subprocess.run(["python3", "/verif/tools/check.py", p, "--tier", tier], cwd="/verif", env=dict(os.environ, VERIF_OUTROOT="/verif/work/seedtest"), stdout=subprocess.PIPE, stderr=subprocess.STDOUT)
             out = r.stdout.decode("utf-8", "replace")
             viol = [l for l in out.splitlines() if l.startswith("VIOLATION")]
             summ = [l for l in out.splitlines() if l.startswith(f"[{p}] tier")]
